@@ -201,6 +201,7 @@ class Shard:
         self.spec = spec
         self.evaluations = 0
         self.distinct = set()
+        self.extra_distinct = 0      # distinct cases counted by the server side (too many to ship as fingerprints)
         self.samples = []
         self.violations = []
         self.known = {}
@@ -257,7 +258,7 @@ class Shard:
     def result(self):
         return {
             "spec": self.spec, "evaluations": self.evaluations,
-            "distinct": self.distinct, "samples": self.samples,
+            "distinct": self.distinct, "extra_distinct": self.extra_distinct, "samples": self.samples,
             "violations": self._capped_violations(), "n_violations": len(self.violations),
             "known": self.known, "inconclusive": self.inconclusive[:50],
             "n_inconclusive": len(self.inconclusive), "counters": self.counters,
@@ -329,7 +330,7 @@ def run_property(mod, prop_id, tier, seed, replay=None):
 
     specs = mod.shards(tier, seed)
     merged = {
-        "evaluations": 0, "distinct": set(), "samples": [], "violations": [],
+        "evaluations": 0, "distinct": set(), "extra_distinct": 0, "samples": [], "violations": [],
         "n_violations": 0, "known": {}, "inconclusive": [], "n_inconclusive": 0,
         "counters": {},
     }
@@ -345,6 +346,7 @@ def run_property(mod, prop_id, tier, seed, replay=None):
                 continue
             merged["evaluations"] += r["evaluations"]
             merged["distinct"] |= r["distinct"]
+            merged["extra_distinct"] += r.get("extra_distinct", 0)
             for s in r["samples"]:
                 if len(merged["samples"]) < 8:
                     merged["samples"].append(s)
@@ -369,7 +371,7 @@ def run_property(mod, prop_id, tier, seed, replay=None):
 
     wall = time.time() - t0
     floor = getattr(mod, "FLOOR", {}).get(tier, 2)
-    n_distinct = len(merged["distinct"])
+    n_distinct = len(merged["distinct"]) + merged["extra_distinct"]
     status = "held"
     if merged["n_violations"] > 0:
         status = "violated"
